@@ -70,6 +70,8 @@ class Engine:
     def __init__(self, max_decisions=128, path_timeout=4.0, max_paths=4000, solver_timeout_ms=20000):
         self.solver = z3.Solver()
         self.solver.set("timeout", solver_timeout_ms)
+        self._solver_timeout_ms = solver_timeout_ms
+        self._pushed = False
         self.max_decisions = max_decisions
         self.path_timeout = path_timeout
         self.max_paths = max_paths
@@ -180,6 +182,7 @@ class Engine:
             self._facts = {}
             self._assume_dirty = False
             self.solver.push()
+            self._pushed = True
             if pre is not None:
                 self.solver.add(pre)
             old = None
@@ -196,19 +199,32 @@ class Engine:
                 except PathTimeout:
                     out = ("timeout", None)
                 except Exception as e:  # noqa: BLE001 -- outcome of the code under analysis
-                    out = ("exc", e)
+                    # the watchdog can fire inside a z3 (ctypes) call, which reports it as an ArgumentError naming PathTimeout
+                    out = ("timeout", None) if "PathTimeout" in f"{type(e).__name__}{e}" else ("exc", e)
                 finally:
                     if self.path_timeout:
                         signal.setitimer(signal.ITIMER_REAL, 0)
                         signal.signal(signal.SIGALRM, old)
                 dead = out[0] == "infeasible"
-                if not dead and self._assume_dirty and self.check() != z3.sat:
+                if out[0] == "timeout":
+                    # the solver may have been interrupted in the middle of a call: start from a fresh one
+                    self._fresh_solver()
+                elif not dead and self._assume_dirty and self.check() != z3.sat:
                     dead = True  # an assumption contradicted the path after its last decision
                 if not dead:
                     results.append(Path(list(self.pc), out[0], out[1], list(self.prefix[: self.pos]), self.nassumed))
             finally:
-                self.solver.pop()
+                try:
+                    if self._pushed:
+                        self.solver.pop()
+                except Exception:  # noqa: BLE001
+                    self._fresh_solver()
         return results
+
+    def _fresh_solver(self):
+        self.solver = z3.Solver()
+        self.solver.set("timeout", self._solver_timeout_ms)
+        self._pushed = False
 
     # -- property queries -------------------------------------------------------
     def query(self, pre, pc, bad, timeout_ms=20000):
